@@ -262,10 +262,14 @@ where
     {
         let mut starts: Vec<usize> = vec![s];
         starts.extend(c.starts.iter().map(|&x| v.live[pick(x, v.live.len())]));
-        dfs_events(g, v, &starts, &c.script, obs)?;
+        dfs_events(g, v, &starts, &c.script, 0, obs)?;
         if !c.script.is_empty() {
-            dfs_events(g, v, &starts, &[], obs)?;
+            // the same script through the `Result<Control<_>, _>` visitor return types
+            dfs_events(g, v, &starts, &c.script, 1 + (c.salt % 2), obs)?;
+            dfs_events(g, v, &starts, &[], 0, obs)?;
         }
+        // a visitor returning `()`
+        dfs_events(g, v, &starts, &[], 3, obs)?;
     }
     Ok(())
 }
@@ -360,7 +364,9 @@ impl<'s> Sim<'s> {
     }
 }
 
-fn dfs_events<G>(g: G, v: &View<G::NodeId>, starts: &[usize], script: &[u8], obs: &mut Obs) -> Result<(), Failure>
+/// `mode` selects the visitor's return type: 0 `Control<usize>`, 1 `Result<Control<usize>, usize>`
+/// answering `Ok(..)` throughout, 2 the same but breaking with `Err(i)`, 3 `()` (empty script only).
+fn dfs_events<G>(g: G, v: &View<G::NodeId>, starts: &[usize], script: &[u8], mode: u8, obs: &mut Obs) -> Result<(), Failure>
 where
     G: IntoNeighbors + Visitable + Copy,
     G::NodeId: Copy + Eq + Hash + std::fmt::Debug,
@@ -371,11 +377,11 @@ where
     let mut got: Vec<Ev> = Vec::new();
     let mut bad: Option<Failure> = None;
     let cap = 4 * (n + a.m() * 2 + 4);
-    let ret: Control<usize> = depth_first_search(g, starts.iter().map(|&s| v.id(s)), |ev| {
+    let mut step = |ev: DfsEvent<G::NodeId>| -> (u8, usize) {
         let i = got.len();
         if i > cap {
             bad = Some(Failure { sig: "C08/dfs-event-flood".into(), msg: "event stream longer than 4(n+2m+4)".into() });
-            return Control::Break(usize::MAX);
+            return (2, usize::MAX);
         }
         let lab = |x| v.labels.get(&x).copied();
         let e = match ev {
@@ -387,18 +393,72 @@ where
         };
         let Some(e) = e else {
             bad = Some(Failure { sig: "C08/unknown-node".into(), msg: format!("event {ev:?} names a node that is not in the graph") });
-            return Control::Break(usize::MAX);
+            return (2, usize::MAX);
         };
         got.push(e);
-        match response(script, i, matches!(e, Ev::Finish(..))) {
-            0 => Control::Continue,
-            1 => Control::Prune,
-            _ => Control::Break(i),
+        (response(script, i, matches!(e, Ev::Finish(..))), i)
+    };
+    let ids = starts.iter().map(|&s| v.id(s));
+    let mut wrong_wrapper: Option<String> = None;
+    let ret: Control<usize> = match mode {
+        0 => depth_first_search(g, ids, |ev| match step(ev) {
+            (0, _) => Control::Continue,
+            (1, _) => Control::Prune,
+            (_, i) => Control::Break(i),
+        }),
+        1 => {
+            let r: Result<Control<usize>, usize> = depth_first_search(g, ids, |ev| match step(ev) {
+                (0, _) => Ok(Control::Continue),
+                (1, _) => Ok(Control::Prune),
+                (_, i) => Ok(Control::Break(i)),
+            });
+            match r {
+                Ok(c) => c,
+                Err(e) => {
+                    wrong_wrapper = Some(format!("visitor never returned Err, depth_first_search returned Err({e})"));
+                    Control::Continue
+                }
+            }
         }
-    });
+        2 => {
+            let r: Result<Control<usize>, usize> = depth_first_search(g, ids, |ev| match step(ev) {
+                (0, _) => Ok(Control::Continue),
+                (1, _) => Ok(Control::Prune),
+                (_, i) => Err(i),
+            });
+            match r {
+                Ok(Control::Break(b)) => {
+                    wrong_wrapper = Some(format!("visitor never returned Ok(Break), depth_first_search returned Ok(Break({b}))"));
+                    Control::Continue
+                }
+                Ok(c) => c,
+                Err(i) => Control::Break(i),
+            }
+        }
+        _ => {
+            assert!(script.is_empty());
+            depth_first_search(g, ids, |ev| {
+                step(ev);
+            });
+            if bad.is_some() {
+                Control::Break(usize::MAX)
+            } else {
+                Control::Continue
+            }
+        }
+    };
     if let Some(f) = bad {
         return Err(f);
     }
+    if let Some(m) = wrong_wrapper {
+        return fail("C08/dfsvisit-return", m);
+    }
+    obs.label(match mode {
+        0 => "visitor returns Control",
+        1 => "visitor returns Result<Control,_> (Ok only)",
+        2 => "visitor returns Result<Control,_> (Err breaks)",
+        _ => "visitor returns ()",
+    });
 
     // ---- independent replay of the stream against the abstract graph ----
     {
